@@ -134,7 +134,10 @@ class Kernel:
             if m["type"] in (self.ARRAY, self.PERCPU_ARRAY):
                 self.fresh += 1
                 data = E.bytes(f"map{fd}_content{self.fresh}", vb)
-                self.put(val, getbytes(data, vb))
+                if isinstance(vb, int):
+                    self.put(val, getbytes(data, vb))
+                else:                       # symbolic number of CPUs
+                    val.buf[0:vb] = data
                 return 0, args
             i = self.find(m, getbytes(key.buf, ks))
             if i is None:
@@ -195,8 +198,32 @@ def stub_cpus(am, online, possible):
     saved_cpu = am.__dict__.get("cpu_count")
     saved_open = am.__dict__.get("open")
 
+    class SymRanges:
+        """content of the `possible` file for a symbolic CPU count: one
+        range "0-<N-1>" whose upper end stays a solver variable"""
+
+        def read(self):
+            return self
+
+        def strip(self):
+            return self
+
+        def split(self, sep=None):
+            return [self]
+
+        def rpartition(self, sep):
+            return ("0", sep, possible - 1)
+
+        def __enter__(self):
+            return self
+
+        def __exit__(self, *a):
+            return False
+
     def fake_open(path, *a, **k):
         if "cpu/possible" in str(path):
+            if not isinstance(possible, int):
+                return SymRanges()
             return io.StringIO(f"0-{possible - 1}\n")
         if "cpu/online" in str(path):
             return io.StringIO(f"0-{online - 1}\n")
